@@ -30,10 +30,83 @@ import (
 	"github.com/els0r/goProbe/v4/pkg/goDB/encoder/null"
 )
 
+// blockIn describes a block. Kind "bnd" is a REQUEST resolved by the writer build: `size` random bytes followed by
+// compressible padding, as much as makes (stored frame length - raw length) equal to `delta` under the writer's own
+// encoder (the boundary of GPFile's `n > len(data)` fallback). The writer answers with the resolved description, kind
+// "randpad" (size random bytes, optionally 11 repeated + 20 random bytes, then pad repeated bytes), which is a pure
+// function again and is what the reader build regenerates.
 type blockIn struct {
-	Kind string `json:"kind"`
-	Size int    `json:"size"`
-	Seed uint64 `json:"seed"`
+	Kind  string `json:"kind"`
+	Size  int    `json:"size"`
+	Seed  uint64 `json:"seed"`
+	Delta int    `json:"delta,omitempty"`
+	Pad   int    `json:"pad,omitempty"`
+	Form  int    `json:"form,omitempty"`
+	Run   int    `json:"run,omitempty"`
+	Got   int    `json:"got,omitempty"` // frame length - raw length reached by the writer's search
+}
+
+func genBlock(b blockIn) []byte {
+	if b.Kind != "randpad" {
+		return xcfg.GenData(b.Kind, b.Size, b.Seed)
+	}
+	// size random bytes; then Form times (a copy of Run earlier bytes + 20 fresh random bytes); then a copy of Pad
+	// earlier bytes: nearly incompressible data holding a few short repetitions, each a small gain for the compressor
+	d := xcfg.GenData("random", b.Size, b.Seed)
+	span := max(b.Size-40, 1)
+	for i := 0; i < b.Form; i++ {
+		off := (i * 97) % span
+		d = append(d, d[off:min(off+b.Run, b.Size)]...)
+		d = append(d, xcfg.GenData("random", 20, (b.Seed^0xABCDEF123456)+uint64(i)<<32)...)
+	}
+	off := (b.Form*97 + 200) % span
+	return append(d, d[off:min(off+b.Pad, b.Size)]...)
+}
+
+var resolved = map[string]blockIn{}
+
+// resolve finds, for a "bnd" request, a block for which the encoder's frame is exactly delta bytes longer than the
+// data. The frame length is not monotone in the amount of repeated material (the libraries switch from a raw to a
+// compressed block only when that pays), so the deterministic scan varies the number and the lengths of the short
+// repetitions; the closest miss is used if the target is never hit (Got tells). The scan is kept short (a trial
+// compression of a few hundred bytes costs milliseconds with the pure-Go zstd encoder) and its result is cached.
+func resolve(e encoder.Encoder, key string, scratch []byte, b blockIn) blockIn {
+	if b.Kind != "bnd" {
+		return b
+	}
+	key += fmt.Sprint(b)
+	if r, ok := resolved[key]; ok {
+		return r
+	}
+	best, bestDist := blockIn{Kind: "randpad", Size: b.Size, Seed: b.Seed, Delta: b.Delta, Got: 1 << 20}, 1<<30
+	var w bytes.Buffer
+scan:
+	for form := 1; form <= 1; form++ {
+		for run := 5; run <= 11; run++ {
+			for pad := 0; pad <= 20; pad++ {
+				c := blockIn{Kind: "randpad", Size: b.Size, Seed: b.Seed, Pad: pad, Form: form, Run: run, Delta: b.Delta}
+				data := genBlock(c)
+				w.Reset()
+				n, err := e.Compress(data, scratch, &w)
+				if err != nil {
+					continue
+				}
+				c.Got = n - len(data)
+				dist := c.Got - b.Delta
+				if dist < 0 {
+					dist = -dist
+				}
+				if dist < bestDist {
+					best, bestDist = c, dist
+				}
+				if dist == 0 {
+					break scan
+				}
+			}
+		}
+	}
+	resolved[key] = best
+	return best
 }
 
 type input struct {
@@ -70,16 +143,19 @@ type blockObs struct {
 }
 
 type reply struct {
-	Own    string     `json:"own"`
-	Class  string     `json:"class"`
-	Err    string     `json:"err,omitempty"`
-	Hdr    []hdrEntry `json:"hdr,omitempty"`
-	Blocks []blockObs `json:"blocks,omitempty"`
+	Own      string     `json:"own"`
+	Class    string     `json:"class"`
+	Err      string     `json:"err,omitempty"`
+	Hdr      []hdrEntry `json:"hdr,omitempty"`
+	Resolved []blockIn  `json:"resolved,omitempty"`
+	Blocks   []blockObs `json:"blocks,omitempty"`
 }
 
 type observed struct {
 	WClass string     `json:"w_class"`
 	WErr   string     `json:"w_err,omitempty"`
+	Raw    []uint32   `json:"raw,omitempty"` // raw length of every block as written
+	Res    []blockIn  `json:"resolved,omitempty"`
 	Blocks []blockObs `json:"blocks"`
 }
 
@@ -116,7 +192,9 @@ func doWrite(rq request) (rep reply) {
 	scratch := make([]byte, in.SLen, in.SCap)
 	var file bytes.Buffer
 	for _, b := range in.Blocks {
-		data := xcfg.GenData(b.Kind, b.Size, b.Seed)
+		b = resolve(e, fmt.Sprint(in.Enc, in.Level, in.SLen, in.SCap), scratch, b)
+		rep.Resolved = append(rep.Resolved, b)
+		data := genBlock(b)
 		if len(data) == 0 {
 			rep.Hdr = append(rep.Hdr, hdrEntry{Off: uint64(file.Len()), Enc: "null"})
 			continue
@@ -168,7 +246,7 @@ func doRead(rq request) (rep reply) {
 	}()
 	var uncomp, blockData []byte
 	for i, h := range rq.Hdr {
-		want := xcfg.GenData(rq.In.Blocks[i].Kind, rq.In.Blocks[i].Size, rq.In.Blocks[i].Seed)
+		want := genBlock(rq.In.Blocks[i])
 		ob := blockObs{Enc: h.Enc, Len: h.Len}
 		func() {
 			defer func() {
@@ -254,6 +332,11 @@ func b2i(b bool) int {
 	return 0
 }
 
+func nativeReader(cfg, enc string) bool { return enc != "null" && implName(cfg, enc) == "native" }
+
+// bigCase: the thorough tier and the search rounds (heavy) run everything; the quick tier keeps, per pair and
+// encoder, one block at each rung (128 KiB, 1 MiB+1, 8 MiB, 8 MiB+1) and the larger blocks only where a pure-Go
+// decoder reads - the whole check has to stay around 100 s.
 func bigCase(k int, heavy bool) input {
 	in := input{SLen: 8192, SCap: 8192}
 	switch {
@@ -261,41 +344,72 @@ func bigCase(k int, heavy bool) input {
 		p, e := k%16, k/16
 		in.W, in.R, in.Enc = cfgNames[p/4], cfgNames[p%4], []string{"zstd", "lz4", "null"}[e]
 		for j, n := range ladder {
-			if !heavy && in.Enc == "null" && p%5 != 0 && p != 1 && p != 4 && j%3 != 2 {
-				continue // quick tier: the null encoder has one implementation; off-diagonal pairs get a short ladder
+			if !heavy {
+				keep := j == 1 || j == 5 || j == 7 || j == 8
+				if in.Enc == "null" { // one implementation: the diagonal pairs only, without the 8 MiB pair
+					keep = j == 1 || (p%5 == 0 && j == 5)
+				}
+				if !keep {
+					continue
+				}
 			}
-			in.Blocks = append(in.Blocks, blockIn{bigKind(n, k+j), n, uint64(4000 + 16*k + j)})
+			in.Blocks = append(in.Blocks, blockIn{Kind: bigKind(n, k+j), Size: n, Seed: uint64(4000 + 16*k + j)})
 		}
 	case k < 60:
-		// 16 MiB+1 for every encoder and reader build; 64 MiB+1 in the quick tier only where a pure-Go decoder reads
 		k -= 48
 		in.W, in.R, in.Enc = cfgNames[(k+1)%4], cfgNames[k%4], []string{"zstd", "lz4", "null"}[k/4]
-		in.Blocks = []blockIn{{"tile", 16<<20 + 1, uint64(5000 + k)}}
-		if heavy || k == 1 || k == 3 || k == 5 { // quick tier: native zstd readers (nocgo, nolibzstd) and one native lz4 reader
-			in.Blocks = append(in.Blocks, blockIn{"tile", 64<<20 + 1, uint64(5100 + k)})
+		size := 16<<20 + 1
+		if !heavy && !nativeReader(in.R, in.Enc) {
+			size = 1<<20 + 3
+		}
+		in.Blocks = []blockIn{{Kind: "tile", Size: size, Seed: uint64(5000 + k)}}
+		if heavy || k == 1 { // quick tier: zstd read by the CGO_ENABLED=0 build
+			in.Blocks = append(in.Blocks, blockIn{Kind: "tile", Size: 64<<20 + 1, Seed: uint64(5100 + k)})
 		}
 	case k < 64:
 		k -= 60
 		in.W, in.R, in.Enc, in.Level = cfgNames[(k+2)%4], cfgNames[k], "zstd", []int{0, 1, 12, 19}[k]
-		for e := 10; e <= 24; e++ {
-			in.Blocks = append(in.Blocks, blockIn{[]string{"const", "text", "tile", "tile"}[e%2+2*b2i(e > 20)], 1<<e + 1, uint64(6000 + 32*k + e)})
+		top := 24
+		if !heavy && k >= 2 {
+			top = 20
+		}
+		for e := 10; e <= top; e++ {
+			in.Blocks = append(in.Blocks, blockIn{Kind: []string{"const", "text", "tile", "tile"}[e%2+2*b2i(e > 20)], Size: 1<<e + 1, Seed: uint64(6000 + 32*k + e)})
 		}
 	case k < 66:
 		k -= 64
 		in.W, in.R, in.Enc = []string{"cgo", "nocgo"}[k], []string{"nocgo", "cgo"}[k], "zstd"
-		in.Blocks = []blockIn{{"tile", 1<<25 + 1, uint64(7000 + k)}}
-		if heavy || k == 0 {
-			in.Blocks = append(in.Blocks, blockIn{"tile", 1<<26 + 1, uint64(7100 + k)})
+		if heavy {
+			in.Blocks = []blockIn{{Kind: "tile", Size: 1<<25 + 1, Seed: uint64(7000 + k)}, {Kind: "tile", Size: 1<<26 + 1, Seed: uint64(7100 + k)}}
+		} else {
+			in.Blocks = []blockIn{{Kind: "tile", Size: 1<<(25-3*k) + 1, Seed: uint64(7000 + k)}}
 		}
 	default: // 2^27+1 only in the thorough tier and the search rounds
 		k -= 66
 		in.W, in.R, in.Enc = []string{"cgo", "nocgo"}[k], []string{"nocgo", "cgo"}[k], "zstd"
-		size := 1<<23 + 1
+		size := 1<<21 + 1
 		if heavy {
 			size = 1<<27 + 1
 		}
-		in.Blocks = []blockIn{{"tile", size, uint64(7200 + k)}}
+		in.Blocks = []blockIn{{Kind: "tile", Size: size, Seed: uint64(7200 + k)}}
 	}
+	return in
+}
+
+// bndCase: for all 16 pairs x {zstd, lz4}: nearly incompressible blocks whose stored frame is one byte shorter
+// than, exactly as long as, and one byte longer than the raw data UNDER THE WRITER'S encoder - the boundary of
+// writeBlock's `nWritten > len(blockData)` fallback (an equal-sized block stays compressed)
+const nBnd = 32
+
+func bndCase(k int) input {
+	p, e := k%16, k/16
+	wi := p / 4
+	in := input{W: cfgNames[wi], R: cfgNames[p%4], Enc: []string{"zstd", "lz4"}[e], Level: []int{0, 0, 3, 9}[wi], SLen: 8192, SCap: 8192}
+	for j, d := range []int{-1, 0, 1} {
+		in.Blocks = append(in.Blocks, blockIn{Kind: "bnd", Size: 400, Seed: uint64(8000 + 64*e + 8*wi + j), Delta: d})
+	}
+	in.Blocks = append(in.Blocks, blockIn{Kind: "bnd", Size: 300 + 37*wi, Seed: uint64(8500 + 8*e + wi), Delta: 0},
+		blockIn{Kind: "bnd", Size: 256, Seed: uint64(8600 + 8*e + wi), Delta: 0})
 	return in
 }
 
@@ -306,7 +420,7 @@ func gen(r *vhlib.Rand, i int, o vhlib.Opts) any {
 	if i < 48 {
 		p, e := i%16, []string{"lz4", "zstd", "null"}[i/16]
 		return input{W: cfgNames[p/4], R: cfgNames[p%4], Enc: e, Level: 0, SLen: 8192, SCap: 8192, Blocks: []blockIn{
-			{"text", 0, 1}, {"random", 5, uint64(i)}, {"text", 3000, uint64(i)}, {"counters", 20000, uint64(i)}, {"random", 300, uint64(i)}}}
+			{Kind: "text", Size: 0, Seed: 1}, {Kind: "random", Size: 5, Seed: uint64(i)}, {Kind: "text", Size: 3000, Seed: uint64(i)}, {Kind: "counters", Size: 20000, Seed: uint64(i)}, {Kind: "random", Size: 300, Seed: uint64(i)}}}
 	}
 	// 16 more fixed cases: nearly incompressible blocks that FIT GPFile's 8192-byte scratch buffer while their
 	// worst-case frame does not (8145..8191 bytes), and a scratch buffer a few bytes larger than the block
@@ -316,17 +430,20 @@ func gen(r *vhlib.Rand, i int, o vhlib.Opts) any {
 		w := []string{"cgo", "nocgo"}[(k/2)%2]
 		in := input{W: w, R: []string{"nocgo", "cgo", "noliblz4", "nolibzstd"}[k%4], Enc: e, Level: []int{0, 1, 9, 12}[k/4], SLen: 8192, SCap: 8192}
 		if k < 8 {
-			in.Blocks = []blockIn{{"random", []int{8150, 8176, 8190, 8191}[k/2], uint64(k)}, {"text", 700, uint64(k)}}
+			in.Blocks = []blockIn{{Kind: "random", Size: []int{8150, 8176, 8190, 8191}[k/2], Seed: uint64(k)}, {Kind: "text", Size: 700, Seed: uint64(k)}}
 		} else {
 			n := []int{64, 4096, 16380, 40000}[(k-8)/2]
 			in.SCap = n + []int{1, 8}[k%2]
 			in.SLen = in.SCap * (k % 2)
-			in.Blocks = []blockIn{{"random", n, uint64(k)}, {"mixed", n / 2, uint64(k)}}
+			in.Blocks = []blockIn{{Kind: "random", Size: n, Seed: uint64(k)}, {Kind: "mixed", Size: n / 2, Seed: uint64(k)}}
 		}
 		return in
 	}
 	if i < 64+nBig {
 		return bigCase(i-64, o.Search || o.Tier == "thorough")
+	}
+	if i < 64+nBig+nBnd {
+		return bndCase(i - 64 - nBig)
 	}
 	in := input{W: vhlib.Pick(r, cfgNames), R: vhlib.Pick(r, cfgNames), SLen: 8192, SCap: 8192}
 	switch x := r.Intn(100); {
@@ -367,12 +484,20 @@ func gen(r *vhlib.Rand, i int, o vhlib.Opts) any {
 		}
 		in.Blocks = append(in.Blocks, b)
 	}
-	if r.Chance(10) { // one block log-uniform in [1, 2^26], compressible when large
+	if in.Enc != "null" && r.Chance(15) { // a block at the boundary of the null-encoder fallback
+		in.Blocks[r.Intn(len(in.Blocks))] = blockIn{Kind: "bnd", Size: 256 + r.Intn(600), Seed: r.U64() >> 16, Delta: r.Intn(3) - 1}
+		return in
+	}
+	if r.Chance(10) { // one block log-uniform in [1, 2^26] (quick tier: 2^23), compressible when large
 		b := &in.Blocks[0]
-		b.Size = 1 << uint(r.Intn(26))
+		top := 23
+		if o.Search || o.Tier == "thorough" {
+			top = 26
+		}
+		b.Size = 1 << uint(r.Intn(top))
 		b.Size += r.Intn(b.Size + 1)
 		if b.Size > 1<<20 {
-			b.Kind = vhlib.Pick(r, []string{"const", "tile", "tile"})
+			b.Kind = "tile"
 			if in.Level > 6 {
 				in.Level = 1 + r.Intn(6)
 			}
@@ -455,7 +580,16 @@ func run(raw json.RawMessage, o vhlib.Opts) (*vhlib.Case, error) {
 	}
 	ob.WClass, ob.WErr = wrep.Class, wrep.Err
 	if wrep.Class == "ok" {
-		rrep, crashed, err := call(in.R, request{Op: "read", In: in, File: file, Hdr: wrep.Hdr}, o)
+		rin := in
+		rin.Blocks = wrep.Resolved // boundary requests resolved by the writer build
+		ob.Res = wrep.Resolved
+		for _, h := range wrep.Hdr {
+			ob.Raw = append(ob.Raw, h.Raw)
+		}
+		if len(wrep.Resolved) != len(in.Blocks) || len(wrep.Hdr) != len(in.Blocks) {
+			return nil, fmt.Errorf("writer %s answered %d/%d blocks for %d", in.W, len(wrep.Resolved), len(wrep.Hdr), len(in.Blocks))
+		}
+		rrep, crashed, err := call(in.R, request{Op: "read", In: rin, File: file, Hdr: wrep.Hdr}, o)
 		if err != nil {
 			return nil, err
 		}
@@ -468,13 +602,16 @@ func run(raw json.RawMessage, o vhlib.Opts) (*vhlib.Case, error) {
 		}
 	}
 	nontrivial := ob.WClass == "ok"
-	var bl []string
+	var bl, bnd []string
 	total := 0
 	comp := 0
 	for i, b := range ob.Blocks {
 		bl = append(bl, fmt.Sprintf("{| o_dlen := %s; o_enc := %s; o_len := %s; o_rclass := %s; o_req := %s |}",
-			vhlib.CoqN(uint64(in.Blocks[i].Size)), coqEnc[b.Enc], vhlib.CoqN(uint64(b.Len)), vhlib.CoqN(coqClass[b.RClass]), vhlib.CoqBool(b.REq)))
-		total += in.Blocks[i].Size
+			vhlib.CoqN(uint64(ob.Raw[i])), coqEnc[b.Enc], vhlib.CoqN(uint64(b.Len)), vhlib.CoqN(coqClass[b.RClass]), vhlib.CoqBool(b.REq)))
+		total += int(ob.Raw[i])
+		if in.Blocks[i].Kind == "bnd" {
+			bnd = append(bnd, fmt.Sprintf("boundary:frame-raw=%+d:%s", in.Blocks[i].Delta, map[bool]string{true: "exact", false: "missed"}[ob.Res[i].Got == in.Blocks[i].Delta]))
+		}
 		if b.Enc != "null" {
 			comp++
 		}
@@ -490,6 +627,7 @@ func run(raw json.RawMessage, o vhlib.Opts) (*vhlib.Case, error) {
 		Tags: []string{"w:" + in.W, "r:" + in.R, pair, "enc:" + in.Enc, "write:" + ob.WClass,
 			fmt.Sprintf("blocks:%d", len(in.Blocks)), fmt.Sprintf("stored-compressed:%d", comp),
 			"lz4 " + implName(in.W, "lz4") + "->" + implName(in.R, "lz4"), "zstd " + implName(in.W, "zstd") + "->" + implName(in.R, "zstd")}}
+	c.Tags = append(c.Tags, bnd...)
 	c.Coq = fmt.Sprintf("Case %s %s %s %s %s %s %s %s", coqCfg[in.W], coqCfg[in.R], coqEnc[in.Enc], vhlib.CoqZ(int64(in.Level)),
 		vhlib.CoqN(uint64(in.SLen)), vhlib.CoqN(uint64(in.SCap)), vhlib.CoqN(coqClass[ob.WClass]), "["+strings.Join(bl, "; ")+"]")
 	return c, nil
